@@ -8,7 +8,7 @@ TITLE = 'Smallest fitting symbol is chosen; overflow is reported, never truncate
 RULE = ('reference decision model qrref.select (ISO capacities, candidate-version indicator widths, admissibility rules of the '
         'statement) evaluated on: both sides of all 825 (version, level, mode) capacity boundaries x micro x eci x boost; all lengths '
         '0..N per mode x 5 level requests x micro; every boundary length x requested versions; k alternating one-character parts '
-        '(k=1..260) at requested versions 9/10/26/27; UTF-8+ECI byte content around boundaries. Every model prediction is replayed on '
+        '(k=1..260) at requested versions 9/10/26/27 and k=1..45 at M3/M4/1/2/auto; UTF-8+ECI byte content around the boundaries of every level, 2-3 byte parts in different encodings with eci=True; adjacent same-mode parts (mergeable) around every small capacity; a single-process cross-talk family (all small configurations forwards and backwards). Every model prediction is replayed on '
         'segno.make; state = (mode sequence, length, level, micro, request, eci, boost); non-trivial = symbol returned or refusal predicted')
 BOUNDS = {'quick': 'lengths 0..300 per mode; requested-version grid for Micro, 1-10, 26, 27, 40',
           'thorough': 'lengths 0..7090/4297/2954/1818/1818; requested-version grid for all 44 versions'}
